@@ -81,7 +81,9 @@ func NumericCase(r *prng.R, id string) *sexp.S {
 	}
 	b := r.Intn(2) == 0
 	vars.Add(sexp.L(sexp.Str("b"), ast.Bool(b).Sexp()))
-	vars.Add(sexp.L(sexp.Str("s"), sexp.L(sexp.A("str"), sexp.Str(r.Pick("abc", "", "1.5x", "yes", "12", "-0.5", "true", "False", "T", "1e3", " 1", "inf", "NaN", "0.1", "123456789012345678901234567890")))))
+	vars.Add(sexp.L(sexp.Str("s"), sexp.L(sexp.A("str"), sexp.Str(r.Pick("abc", "", "1.5x", "yes", "12", "-0.5", "true", "False", "T", "1e3", " 1", "inf", "NaN", "0.1", "123456789012345678901234567890",
+		// digits that are not ASCII digits, signs, separators and prefixes: none of these is a number except where strconv says so
+		"٤٢", "４２", "१२३", "4٢", "1２3", "𝟜𝟚", "٣", "+5", "5.", ".5", "1e", "--1", "1,5", "Infinity", "-inf", "+Inf", "nan", "1 ", "\t1", "TRUE", "t", "0", "-0", "00012", "1e400", "1e-400")))))
 	for _, e := range []*ast.Expr{
 		ast.Fn("bool", ast.Fn("string", ast.Var("b"))), ast.Fn("string", ast.Var("b")), ast.Fn("bool", ast.Var("b")), ast.Fn("number", ast.Var("b")),
 		ast.Fn("string", ast.Var("s")), ast.Fn("number", ast.Var("s")), ast.Fn("bool", ast.Var("s")),
